@@ -166,6 +166,28 @@ Definition C03_full : Prop :=
   forall (t : nat) (P : list AM.entry) (u c : nat) el q,
     AS.committed_in_term s t P -> In (u, c, el, q) (AM.leaders s) -> (t < u)%nat -> AL.prefix P el.
 
+
+(* runs checked step by step ("steps_ok": every step additionally satisfies the two decidable conditions the
+   acceptor evaluates — a candidate only wins a term without an elected leader, a leader only commits a prefix
+   comparable with the committed log): arbitrary membership changes, NO Overlap hypothesis. Every accepted
+   implementation trace is such a run (accepted_run_checked, stated in Properties/C03.v). *)
+Theorem C03_committed_log_grows_checked : forall (cf : AM.config) (log0 : list AM.entry), AM.init_ok cf log0 ->
+  forall s, AS.steps_ok (AM.init cf log0) s ->
+  forall s', AS.steps_ok s s' -> AL.prefix (AM.gcommit s) (AM.gcommit s').
+Proof. exact AT.committed_log_grows_checked. Qed.
+Print Assumptions C03_committed_log_grows_checked.
+
+(* what the acceptor accepts is such a run, and its final state satisfies all invariants without Overlap *)
+Theorem C03_accepted_run_checked : forall (cf : AM.config) (log0 : list AM.entry) (ls : list AA.label) s,
+  AA.run (AM.init cf log0) ls = Some s -> AS.steps_ok (AM.init cf log0) s.
+Proof. exact AT.accepted_run_checked. Qed.
+Print Assumptions C03_accepted_run_checked.
+
+Theorem C03_accepted_trace_inv : forall (cf : AM.config) (log0 : list AM.entry) (ls : list AA.label) s,
+  AA.init_okb cf log0 = true -> AA.run (AM.init cf log0) ls = Some s -> AI.inv1 s /\ AI.inv2 s.
+Proof. exact ZV.RaftAbs.AcceptorSound.accepted_trace_inv. Qed.
+Print Assumptions C03_accepted_trace_inv.
+
 (* ---------- non-vacuity ---------- *)
 Example C03_ex_append_truncates :
   ms_append (mkMS 0 0 [mkE 0 0 0 0; mkE 1 1 5 9; mkE 1 2 6 9; mkE 1 3 7 9]) [mkE 2 2 8 9] =
